@@ -316,6 +316,8 @@ def _apply_rule(prog, chk, R, app, amp, sp, KS):
                 try:
                     F.env[v['id']] = F.fold(v['init'])
                 except KT.Unfoldable as e:
+                    if (v.get('type') or '').replace('const ', '') == 'bool':
+                        continue      # a flag computed from the matrix (a "fast path" selector): judged where it is used
                     raise AnalysisBroken('applicator prologue: ' + str(e))
     two_q = KT.op('<<', KT.I(1), KT.S(q['name']))
     po = _loop_parts(outer)
@@ -347,7 +349,14 @@ def _apply_rule(prog, chk, R, app, amp, sp, KS):
     body = inner[0]['body']['body'] if inner[0]['body']['k'] == 'block' else [inner[0]['body']]
     # linearity: the update of a pair is unconditional — no branch, skip or early exit inside the loop nest (a "fast path" that
     # skips pairs by looking at the amplitudes makes the gate non-linear)
-    ctl = [x for x in SX.walk(outer['body'], into_lambdas=False) if x['k'] in ('if', 'continue', 'break', 'return', 'switch', 'while', 'do', 'cond', 'goto')]
+    # a shortcut selected by the matrix alone (`if (flipOnly) { swap(a0, a1); continue; }` with flipOnly := m[0] == 0 && m[3] == 0) is
+    # the same linear map only if it equals m·(a0, a1) for every matrix that selects it: decided exactly, then set aside
+    body, sc_bad = _matrix_shortcut(app, body, marr, amp, sp, KS)
+    if sc_bad:
+        chk.ob('R01.2', app, sc_bad[0] or app.ln, False, 'a shortcut selected by matrix entries must act as the matrix does for every matrix that selects it: %s' % sc_bad[1],
+               key='apply:shortcut')
+        return
+    ctl = [x for s_ in body for x in SX.walk(s_, into_lambdas=False) if x['k'] in ('if', 'continue', 'break', 'return', 'switch', 'while', 'do', 'cond', 'goto')]
     chk.ob('R01.2', app, (ctl[0].get('ln') if ctl else outer.get('ln')) or app.ln, not ctl,
            'every pair of the sweep is updated unconditionally: the loop nest contains no branch, skip or early exit (found %s)' %
            [SX.show(x.get('c'))[:50] if x['k'] in ('if', 'cond') else x['k'] for x in ctl][:3], key='apply:unconditional')
@@ -660,3 +669,79 @@ def _str(e):
             if SX.is_node(a) and a.get('k') == 'str':
                 return a['v']
     return None
+
+
+def _matrix_shortcut(app, body, marr, amp, sp, KS):
+    """body[0] of the form `if (flag) { stores / std::swap on the pair; continue; }` with flag a const bool of the applicator defined
+    as a conjunction of `m[k] == constant` → (body without it, None) when the branch equals m·(a0,a1) under those equalities,
+    (body, (line, why)) when it does not; anything else is returned unchanged (and judged by the unconditional-update rule)."""
+    pos = next((i_ for i_, s_ in enumerate(body) if s_['k'] != 'decls'), None)
+    if pos is None or body[pos]['k'] != 'if' or body[pos].get('e') or body[pos].get('cv'):
+        return body, None
+    st = body[pos]
+    c = SX.strip(st['c'])
+    if not (SX.is_node(c) and c.get('k') == 'ref'):
+        return body, None
+    decl = [v for v in SX.walk(app.body, into_lambdas=False) if v['k'] == 'var' and v.get('id') == c.get('id')]
+    if len(decl) != 1 or not SX.is_node(decl[0].get('init')):
+        return body, None
+    eqs = {}
+
+    def conj(e):
+        e = SX.strip(e)
+        if SX.is_node(e) and e.get('k') == 'bin' and e.get('op') == '&&':
+            return conj(e['l']) and conj(e['r'])
+        cp = SX.cmp_parts(e)
+        if cp and cp[0] == '==':
+            for a, b in ((cp[1], cp[2]), (cp[2], cp[1])):
+                a, b = SX.strip(a), SX.strip(b)
+                while SX.is_node(b) and b.get('k') in ('cast', 'construct') and (b['k'] == 'cast' or len(SX.real_args(b)) == 1):
+                    b = SX.strip(b['e'] if b['k'] == 'cast' else SX.real_args(b)[0])
+                if SX.is_node(a) and a.get('k') == 'index' and SX.strip(a['base']).get('id') == marr['id'] and SX.strip(a['i']).get('k') == 'int' \
+                        and SX.is_node(b) and b.get('k') in ('int', 'float'):
+                    eqs[SX.strip(a['i'])['v']] = b['v']
+                    return True
+        return False
+    if not conj(decl[0]['init']) or not eqs:
+        return body, None
+    tb = st['t']['body'] if st['t'].get('k') == 'block' else [st['t']]
+    if not tb or tb[-1]['k'] != 'continue':
+        return body, None
+    a0, a1 = sp.Symbol('a0'), sp.Symbol('a1')
+    ms = [sp.Integer(eqs[k]) if k in eqs and float(eqs[k]) == int(eqs[k]) else (sp.Float(eqs[k]) if k in eqs else sp.Symbol('m%d' % k)) for k in range(4)]
+    # the two cells of the pair are the two distinct index expressions the branch touches, in the order of the general update
+    idx_txt = []
+    for s_ in body[pos + 1:]:
+        for x in SX.walk(s_):
+            if x['k'] == 'index' and SX.show(x['base']) == amp and SX.show(x['i']) not in idx_txt:
+                idx_txt.append(SX.show(x['i']))
+    if len(idx_txt) != 2:
+        return body, None
+    cur = {idx_txt[0]: a0, idx_txt[1]: a1}
+    try:
+        for s_ in tb[:-1]:
+            e = SX.strip(s_.get('e')) if s_['k'] == 'expr' else None
+            if SX.is_node(e) and e.get('k') == 'call' and e.get('callee') == 'std::swap':
+                x, y = [SX.strip(a_) for a_ in SX.real_args(e)]
+                kx, ky = SX.show(x['i']), SX.show(y['i'])
+                cur[kx], cur[ky] = cur[ky], cur[kx]
+                continue
+            w = SX.write_target(e) if SX.is_node(e) else None
+            if w and w[2] == '=' and SX.strip(w[0]).get('k') == 'index' and SX.show(SX.strip(w[0])['base']) == amp:
+                def rd(ix):
+                    if SX.show(ix['base']) == amp:
+                        return cur[SX.show(ix['i'])]
+                    k_ = SX.strip(ix['i'])
+                    return ms[k_['v']]
+                cur[SX.show(SX.strip(w[0])['i'])] = sp.expand(KS.to_sympy(w[1], {}, rd))
+                continue
+            return body, None
+    except Exception:
+        return body, None
+    d0 = sp.simplify(cur[idx_txt[0]] - (ms[0] * a0 + ms[1] * a1))
+    d1 = sp.simplify(cur[idx_txt[1]] - (ms[2] * a0 + ms[3] * a1))
+    if d0 == 0 and d1 == 0:
+        return body[:pos] + body[pos + 1:], None
+    cond_txt = ' && '.join('m[%d] == %s' % (k, eqs[k]) for k in sorted(eqs))
+    return body, (st.get('ln'), 'under %s the branch yields (%s, %s) where the matrix gives (%s, %s) — e.g. the y gate has that shape and is not a plain swap' % (
+        cond_txt, cur[idx_txt[0]], cur[idx_txt[1]], sp.expand(ms[0] * a0 + ms[1] * a1), sp.expand(ms[2] * a0 + ms[3] * a1)))
